@@ -1,5 +1,6 @@
 import BpProofs.SrcTieImpRe
 import BpProofs.ImportingParse
+import BpProofs.Props.C13Src
 /-
   C13, tied to the SOURCE: `parse_source_type_name` of src/betterproto/compile/importing.py — the regular
   expression `^\.?([^A-Z]+)\.(.+)` PARSED from the source of the working tree on every run, `re.match`, and the two
@@ -12,7 +13,7 @@ import BpProofs.ImportingParse
   attempt at position 0; `\.` = `[.]`; `.` = `[^\n]`; `lstrip`), the translator.
 -/
 namespace Bp.C13
-open Bp Bp.Casing Bp.Importing Bp.SrcTieImpRe
+open Bp Bp.Py Bp.Casing Bp.Naming Bp.Importing Bp.SrcTieImp Bp.SrcTieImpRe
 
 /-- `parse_source_type_name` as written returns what the model's `parseSourceTypeName` returns, for EVERY string
     without a newline (every string protoc can hand to the plugin: type names are dotted identifiers) -/
@@ -53,6 +54,72 @@ theorem src_parse_newline_witness :
     Src.parse_source_type_name "a.b\nc".toList = ("a".toList, "b".toList) ∧
     parseSourceTypeName "a.b\nc".toList = ("a".toList, "b\nc".toList) :=
   newline_witness
+
+/-- **`get_type_reference` as written, the WHOLE function** — the `unwrap` block (wrapper types through the
+    regenerated `WRAPPER_TYPES` table, Duration, Timestamp), `parse_source_type_name` with its regular expression,
+    the google.protobuf redirection, the five-way dispatch and the five `reference_*` functions, all regenerated
+    from the source — returns the text and adds the import line of the model's `getTypeReference`, for ALL
+    package strings, all type names without a newline, both values of `unwrap` and `pydantic`
+    (`typing_compiler.optional` being the direct-import compiler's, as in the model) -/
+theorem src_get_type_reference (fuel : Nat) (package sourceType : Str) (imports : List Str) (unwrap pydantic : Bool)
+    (hn : NoNl sourceType) :
+    Src.get_type_reference fuel package imports sourceType unwrap pydantic optionalText
+      = .ok ((getTypeReference package sourceType unwrap pydantic).ref.render,
+             imports ++ added (getTypeReference package sourceType unwrap pydantic).imp) := by
+  have hd := src_dispatch_is_getTypeReference fuel package sourceType imports pydantic
+  have hp := src_parse_source_type_name sourceType hn
+  unfold Src.get_type_reference
+  cases unwrap with
+  | false =>
+    simp only [Bool.false_eq_true, if_false, hp]
+    exact hd
+  | true =>
+    simp only [if_true]
+    cases hl : wrapperTable.lookup sourceType with
+    | some ty =>
+      simp only [Py.inWrapperTypes, Py.wrapperValueTypeName, hl, Option.isSome_some, if_true, Py.Res.bind]
+      rw [gtr_wrapper package sourceType pydantic ty hl]
+      simp only [Ref.render, added, List.append_nil]
+    | none =>
+      simp only [Py.inWrapperTypes, hl, Option.isSome_none, Bool.false_eq_true, if_false, decide_eq_true_eq]
+      by_cases h1 : sourceType = ".google.protobuf.Duration".toList
+      · rw [if_pos h1, h1, gtr_duration]
+        simp only [Ref.render, added, List.append_nil]
+      · by_cases h2 : sourceType = ".google.protobuf.Timestamp".toList
+        · rw [if_neg h1, if_pos h2, h2, gtr_timestamp]
+          simp only [Ref.render, added, List.append_nil]
+        · rw [if_neg h1, if_neg h2, gtr_other package sourceType pydantic hl h1 h2]
+          simp only [hp]
+          exact hd
+
+/-- the sentence of C13 about well-known types, of the whole source function: a wrapper type in an unwrapping
+    site becomes `Optional[<python type>]` with NO import, whatever the current package -/
+theorem src_wrapper_unwraps (fuel : Nat) (package : Str) (imports : List Str) (pydantic : Bool) :
+    ∀ kv ∈ wrapperTable,
+      Src.get_type_reference fuel package imports kv.1 true pydantic optionalText
+        = .ok (optionalText ((wrapperTable.lookup kv.1).getD []), imports) := by
+  intro kv hkv
+  have hn : NoNl kv.1 := by
+    have : ∀ kv ∈ wrapperTable, NoNl kv.1 := by decide
+    exact this kv hkv
+  have hl : (wrapperTable.lookup kv.1).isSome = true := by
+    have : ∀ kv ∈ wrapperTable, (wrapperTable.lookup kv.1).isSome = true := by decide
+    exact this kv hkv
+  rw [src_get_type_reference fuel package kv.1 imports true pydantic hn]
+  cases h : wrapperTable.lookup kv.1 with
+  | none => rw [h] at hl; cases hl
+  | some ty => simp [getTypeReference, h, Ref.render, added]
+
+/-- non-vacuity: the whole function on concrete arguments (a cousin reference; a wrapper; a Timestamp) -/
+example : Src.get_type_reference 0 "a.b".toList [] ".a.c.d.Msg".toList true false optionalText
+    = .ok ("\"_c_d__.Msg\"".toList, ["from ..c import d as _c_d__".toList]) := by decide
+example : Src.get_type_reference 0 "a".toList [] ".google.protobuf.Int32Value".toList true false optionalText
+    = .ok ("Optional[int]".toList, []) := by decide
+example : Src.get_type_reference 0 "a".toList [] ".google.protobuf.Timestamp".toList true false optionalText
+    = .ok ("datetime".toList, []) := by decide
+example : Src.get_type_reference 0 "a".toList [] ".google.protobuf.Timestamp".toList false false optionalText
+    = .ok ("\"betterproto_lib_google_protobuf.Timestamp\"".toList,
+           ["import betterproto.lib.google.protobuf as betterproto_lib_google_protobuf".toList]) := by decide
 
 /-- non-vacuity: a nested type of a two-segment package -/
 example : Src.parse_source_type_name ".a.b1.Outer.Inner".toList = ("a.b1".toList, "Outer.Inner".toList) := by
